@@ -18,6 +18,7 @@ import (
 	"io"
 	"net"
 	"net/netip"
+	"runtime/debug"
 	"sort"
 	"strings"
 	"testing"
@@ -221,14 +222,14 @@ func (s *c10Stack) drawAnswers(t *rapid.T, preferType uint16) []c10Ans {
 	pool := c10AnswerPool()
 	n := rapid.IntRange(0, 4).Draw(t, "nans")
 	var out []c10Ans
-	if n > 0 && rapid.IntRange(0, 4).Draw(t, "cname_first") == 0 {
+	if n > 0 && rapid.IntRange(0, 4).Draw(t, "cname_first") == 4 {
 		out = append(out, c10Ans{kind: "CNAME"})
 	}
 	for i := 0; i < n; i++ {
 		var cand []c10Ans
 		// mostly records of the asked family, sometimes anything (an upstream may
 		// answer whatever it likes; the cache stores the answer section as is).
-		if rapid.IntRange(0, 5).Draw(t, "anyfam") != 0 {
+		if rapid.IntRange(0, 5).Draw(t, "anyfam") != 5 {
 			for _, a := range pool {
 				if (preferType == dnsmessage.TypeA && a.kind == "A") || (preferType == dnsmessage.TypeAAAA && a.kind == "AAAA") {
 					cand = append(cand, a)
@@ -240,7 +241,7 @@ func (s *c10Stack) drawAnswers(t *rapid.T, preferType uint16) []c10Ans {
 		}
 		out = append(out, rapid.SampledFrom(cand).Draw(t, "ans"))
 	}
-	if rapid.IntRange(0, 9).Draw(t, "txt") == 0 {
+	if rapid.IntRange(0, 9).Draw(t, "txt") == 9 {
 		out = append(out, c10Ans{kind: "TXT"})
 	}
 	return out
@@ -329,6 +330,22 @@ func (s *c10Stack) coords(key string) (nameIdx int, qtype uint16, scope c10Scope
 	return 0, 0, c10Scope{}, false
 }
 
+// c10NewPlane is the ControlPlane literal the production option is taken from:
+// a core whose bpfObjects has a nil DomainRoutingMap, the matcher stand-in, and a
+// fixed_domain_ttl entry.
+func c10NewPlane(ctx context.Context, table map[string]bpfDomainRouting, presetTracker bool) *ControlPlane {
+	log := c10Log()
+	core := &controlPlaneCore{log: log}
+	if presetTracker {
+		core.domainRouting = newDomainRoutingTracker()
+	}
+	core.bpf.Store(&bpfObjects{}) // DomainRoutingMap == nil
+	plane := &ControlPlane{log: log, core: core, ctx: ctx}
+	plane.routingMatcher = &RoutingMatcher{domainMatcher: &c10Matcher{table: table}}
+	plane.dnsFixedDomainTtl = map[string]int{"fixed.example": 7}
+	return plane
+}
+
 func c10StackCase(t *rapid.T) {
 	const unit = "C10.stack"
 	s := &c10Stack{
@@ -356,15 +373,7 @@ func c10StackCase(t *rapid.T) {
 
 	ctx, cancel := context.WithCancel(context.Background())
 	defer cancel()
-	log := c10Log()
-	core := &controlPlaneCore{log: log}
-	if presetTracker {
-		core.domainRouting = newDomainRoutingTracker()
-	}
-	core.bpf.Store(&bpfObjects{}) // DomainRoutingMap == nil
-	plane := &ControlPlane{log: log, core: core, ctx: ctx}
-	plane.routingMatcher = &RoutingMatcher{domainMatcher: &c10Matcher{table: s.table}}
-	plane.dnsFixedDomainTtl = map[string]int{"fixed.example": 7}
+	plane := c10NewPlane(ctx, s.table, presetTracker)
 
 	// exactly what NewControlPlane does with the option (control_plane.go:775-780).
 	option := plane.dnsControllerOption()
@@ -403,13 +412,13 @@ func c10StackCase(t *rapid.T) {
 			n, qt, sc := drawCoords(t)
 			how := "resp"
 			switch rapid.IntRange(0, 19).Draw(t, "how") {
-			case 0:
+			case 19:
 				how = "nxdomain"
-			case 1, 2:
+			case 17, 18:
 				how = "ttlapi"
 				sc = s.scopes[0]
 			}
-			s.insert(n, qt, sc, s.drawAnswers(t, qt), rapid.SampledFrom(ttls).Draw(t, "ttl"), how, rapid.IntRange(0, 7).Draw(t, "upper") == 0)
+			s.insert(n, qt, sc, s.drawAnswers(t, qt), rapid.SampledFrom(ttls).Draw(t, "ttl"), how, rapid.IntRange(0, 7).Draw(t, "upper") == 7)
 		},
 		// a live entry is refreshed with a different address set derived from its own.
 		"refresh": func(t *rapid.T) {
@@ -565,6 +574,7 @@ func TestC10_Stack(tt *testing.T) {
 		var (
 			pv       any
 			panicked bool
+			stack    []byte
 		)
 		synctest.Test(tt, func(_ *testing.T) {
 			// rapid signals failure / invalid data by panicking; catch it inside the
@@ -573,12 +583,25 @@ func TestC10_Stack(tt *testing.T) {
 			defer func() {
 				if r := recover(); r != nil {
 					pv, panicked = r, true
+					stack = debug.Stack()
 				}
 			}()
 			c10StackCase(t)
 		})
-		if panicked {
+		if !panicked {
+			return
+		}
+		// rapid's shrinker recognises "the same failure" by the traceback of the
+		// panic site, so the three kinds must be re-raised from three different
+		// sites — otherwise an "invalid data: overrun" during shrinking is taken
+		// for the failure being minimised.
+		switch fmt.Sprintf("%T", pv) {
+		case "rapid.invalidData":
+			t.Skip(fmt.Sprint(pv))
+		case "rapid.stopTest":
 			panic(pv)
+		default:
+			panic(fmt.Sprintf("panic inside the bubble: %v\n%s", pv, stack))
 		}
 	})
 }
